@@ -239,6 +239,15 @@ CanAddByLabels(a, b) ==
     /\ a.labels # b.labels
     /\ CanAdd(a, OpTranspose(b, LabelPerm(a, b)))
 OpAddByLabels(a, z, b) == OpAddScaled(a, z, OpTranspose(b, LabelPerm(a, b)))
+\* what `a + b`, `a - b`, `a.iadd_prefactor_other(z, b)` really add: "if self and other have the same labels in different
+\* order, other gets transposed before the action" -- also when the legs would fit position by position
+LabelShuffled(a, b) ==
+    /\ TRank(a) = TRank(b) /\ AllLabeled(a) /\ AllLabeled(b)
+    /\ {a.labels[i] : i \in 1..TRank(a)} = {b.labels[i] : i \in 1..TRank(b)}
+    /\ a.labels # b.labels
+AddOperand(a, b) == IF LabelShuffled(a, b) THEN OpTranspose(b, LabelPerm(a, b)) ELSE b
+CanAddL(a, b) == TRank(a) = TRank(b) /\ CanAdd(a, AddOperand(a, b))
+OpAddScaledL(a, z, b) == OpAddScaled(a, z, AddOperand(a, b))
 OpScale(t, z) == [t EXCEPT !.val = TScale(z, t.val)]
 
 \* combine_legs(groups, qconj=qcs [, new_axes]): several pipes at once.
